@@ -10,9 +10,12 @@ package vsync
 
 import (
 	"fmt"
+	"os"
 	"runtime"
 	"strings"
 	"sync"
+	"sync/atomic"
+	"time"
 )
 
 type threadState int
@@ -79,6 +82,40 @@ type Sched struct {
 }
 
 var active *Sched
+
+var (
+	watchdogOnce sync.Once
+	progress     int64 // bumped at every scheduling step and at every execution start
+)
+
+// startWatchdog turns "a controlled thread blocked in un-hooked code" into a loud harness error instead of a hang.
+func startWatchdog() {
+	watchdogOnce.Do(func() {
+		go func() {
+			last, idle := int64(-1), 0
+			for {
+				time.Sleep(5 * time.Second)
+				cur := atomic.LoadInt64(&progress)
+				if active != nil && cur == last {
+					idle++
+					if idle >= 6 {
+						fmt.Fprintf(os.Stderr, "HARNESS-ERROR: vsync watchdog: no scheduling event for 30s; a controlled thread is blocked in code that is not routed through the shims\n")
+						if s := active; s != nil && s.current != nil {
+							fmt.Fprintf(os.Stderr, "running thread: %s (last op %s %s)\n", s.current.Name, s.current.opKind, s.current.opObj)
+						}
+						buf := make([]byte, 1<<16)
+						buf = buf[:runtime.Stack(buf, true)]
+						os.Stderr.Write(buf)
+						os.Exit(3)
+					}
+				} else {
+					idle = 0
+				}
+				last = cur
+			}
+		}()
+	})
+}
 
 // Active reports whether a scheduler is installed (controlled mode).
 func Active() bool { return active != nil }
@@ -214,6 +251,8 @@ func RunOnce(prefix []int, maxSteps int, keepTrace bool, setup func(s *Sched)) *
 		panic("vsync: nested scheduler")
 	}
 	s := &Sched{yielded: make(chan struct{}), prefix: prefix, chans: map[uintptr]*chanModel{}, objNames: map[interface{}]string{}, MaxSteps: maxSteps, keepTrace: keepTrace}
+	startWatchdog()
+	atomic.AddInt64(&progress, 1)
 	active = s
 	defer func() { active = nil }()
 	setup(s)
@@ -278,6 +317,7 @@ func (s *Sched) loop() {
 			s.Trace = append(s.Trace, fmt.Sprintf("%s:%s(%s)", t.Name, t.opKind, t.opObj))
 		}
 		s.Steps++
+		atomic.AddInt64(&progress, 1)
 		s.current = t
 		s.last = t
 		t.resume <- struct{}{}
